@@ -28,7 +28,29 @@ ASSUMPTIONS = [
     "non-node arguments are generated for NodeMixin-based classes only (the statement prescribes TreeError only there)",
 ]
 CLASS_SPECS = ["HNM", "HLM", "Node", "AnyNode", "SymlinkNode", "PlainNM", "SlotLM", "DictLM", ["Node", "AnyNode", "SymlinkNode", "PlainNM"], ["SlotLM", "DictLM"], ["Node", "SymlinkNodeU"], ["AnyNode", "SymlinkNodeU", "SymlinkNodeU"], "HEqNM", "HEqLM", "HSlotStoreNM", "HSideNM"]
-CTORS = {"Node": lambda **kw: Node("new", **kw), "AnyNode": lambda **kw: AnyNode(name="new", **kw), "SymlinkNode": lambda **kw: SymlinkNode(Node("t"), **kw), "LateSuperNM": lambda **kw: nodes.LateSuperNM("new", **kw)}
+class CostedAny(AnyNode):
+    """An AnyNode subclass whose attach hooks read an attribute that was given to the constructor as a keyword (a budget
+    check, a log line): `AnyNode(parent=p, cost=4)` behaves like `n = AnyNode(cost=4); n.parent = p`."""
+
+    def _pre_attach(self, parent):
+        self.__dict__["seen_in_pre_attach"] = self.cost
+
+    def _post_attach(self, parent):
+        self.__dict__["seen_in_post_attach"] = self.cost
+
+    def _pre_attach_children(self, children):
+        self.__dict__["seen_in_pre_attach_children"] = self.cost
+
+
+class CostedNode(Node):
+    def _pre_attach(self, parent):
+        self.__dict__["seen_in_pre_attach"] = (self.name, self.cost)
+
+    def _post_attach_children(self, children):
+        self.__dict__["seen_in_post_attach_children"] = (self.name, self.cost)
+
+
+CTORS = {"CostedAny": lambda **kw: CostedAny(name="new", cost=4, **kw), "CostedNode": lambda **kw: CostedNode("new", cost=4, **kw), "Node": lambda **kw: Node("new", **kw), "AnyNode": lambda **kw: AnyNode(name="new", **kw), "SymlinkNode": lambda **kw: SymlinkNode(Node("t"), **kw), "LateSuperNM": lambda **kw: nodes.LateSuperNM("new", **kw)}
 
 
 def describe(op, state):
@@ -307,7 +329,7 @@ def check_case(case, acc):
 
 def check_construct(case, acc):
     cls = case["cls"]
-    rec, universe = mut.make_universe(cls, case["state"], case.get("route", "parent"))
+    rec, universe = mut.make_universe({"CostedAny": "AnyNode", "CostedNode": "Node"}.get(cls, cls), case["state"], case.get("route", "parent"))
     n = len(universe)
     pre = mut.snapshot(universe, rec.labels)
     family = "NM"
